@@ -473,6 +473,13 @@ func (p *parser) multiHash() *Node {
 			p.fail("expected identifier as multi-select hash key")
 		}
 		p.expect(tColon, ":")
+		for _, k := range n.Keys {
+			if k == key {
+				// the specification does not say what a repeated key means (which member wins, whether the
+				// overridden expression is still evaluated)
+				n.U = "duplicate key in a multi-select hash"
+			}
+		}
 		n.Keys = append(n.Keys, key)
 		n.Items = append(n.Items, p.expression(0))
 		if p.cur().kind == tComma {
